@@ -7,6 +7,8 @@ rewritten from what was observed in this run."""
 import json, glob, os, subprocess, sys
 K, i, n = sys.argv[1], int(sys.argv[2]), int(sys.argv[3])
 UPDATE = '--update' in sys.argv
+MAX_ID = int(os.environ.get('REGRESS_MAX_ID', '999'))   # only changes <ID>-<n> with n <= this
+SKIP = set(l.split()[0] for f in os.environ.get('REGRESS_SKIP_LOGS', '').split(':') if f and os.path.exists(f) for l in open(f) if l.strip())
 REPO, VERIF = f'/tmp/eval{K}/repo', f'/tmp/eval{K}/verif'
 def sh(cmd, cwd=None):
     p = subprocess.run(cmd, shell=True, cwd=cwd, stdout=subprocess.PIPE, stderr=subprocess.STDOUT, text=True)
@@ -15,6 +17,7 @@ dirs = sorted(glob.glob('/verif/seeded/*/'))
 for idx, d in enumerate(dirs):
     if idx % n != i: continue
     name = os.path.basename(d.rstrip('/'))
+    if int(name.split('-')[1]) > MAX_ID or name in SKIP: continue
     meta = json.load(open(d + 'meta.json'))
     checks = [c for c in meta.get('detected_by', []) if not c.endswith('thorough')]
     own = name.split('-')[0]
